@@ -299,6 +299,15 @@ def run(ctx, n_quick=400, n_thorough=20000):
                    ("absent", [{"op": "write", "data": content.hex()}, {"op": "enter", "i": 0}, {"op": "use", "i": 0}, {"op": "enter", "i": 0}])]
     corpus += [("absent", [{"op": "use", "i": 0}, {"op": "enter", "i": 0}, {"op": "use", "i": 0}, {"op": "exit", "i": 0, "exc": False}, {"op": "use", "i": 0}]),
                ({"data": "00" * 5}, [{"op": "enter", "i": 0}, {"op": "use", "i": 0}]), ("unwritable", [{"op": "enter", "i": 0}, {"op": "use", "i": 0}])]
+    # 32 bytes that end (or begin) with a line break, blanks, NUL bytes: still exactly 32 bytes, used verbatim by every session and object
+    for content in (b"K" * 31 + b"\n", b"K" * 30 + b"\r\n", b"\n" + b"K" * 31, b" " * 32, b"\x00" * 32, b"\x00" * 31 + b"\x01", b"\t" + b"K" * 30 + b" "):
+        corpus += [({"data": content.hex()}, [{"op": "enter", "i": 0}, {"op": "use", "i": 0}, {"op": "exit", "i": 0, "exc": False}, {"op": "enter", "i": 1}, {"op": "use", "i": 1},
+                                              {"op": "enter", "i": 0}, {"op": "use", "i": 0}])]
+    # a file that cannot be created: every attempt fails, nothing is ever used; repaired later, the same object works
+    corpus += [("unwritable", [{"op": "enter", "i": 0}, {"op": "use", "i": 0}, {"op": "enter", "i": 0}, {"op": "use", "i": 0}, {"op": "write", "data": "33" * 32},
+                               {"op": "enter", "i": 0}, {"op": "use", "i": 0}]),
+               ({"data": "00" * 5}, [{"op": "enter", "i": 0}, {"op": "write", "data": "44" * 32}, {"op": "enter", "i": 0}, {"op": "use", "i": 0}, {"op": "exit", "i": 0, "exc": False},
+                                     {"op": "write", "data": "55" * 40}, {"op": "enter", "i": 0}, {"op": "write", "data": "66" * 32}, {"op": "enter", "i": 0}, {"op": "use", "i": 0}])]
     k1, k2 = "11" * 32, "22" * 32
     corpus += [
         # one object, two sessions, the file replaced by another valid key in between: the second session uses the new key
